@@ -326,7 +326,9 @@ class SymExec:
                              if isinstance(n, ast.Attribute) and n.attr in self.volatile and id(n) not in done
                              and isinstance(n.ctx, ast.Load) else None)
         calls = []
-        for n in ast.walk(v):
+        visited = []
+        for n in _walk_unflagged(v, '_nohelper'):
+            visited.append(n)
             if isinstance(n, ast.Call):
                 hp = self.helper_paths(n, path.env)
                 if hp is not None:
@@ -337,6 +339,12 @@ class SymExec:
                 if hp is not None:
                     calls.append((n, hp))
         if not calls:
+            # nothing to look through in here: shared subtrees need not be scanned again
+            for n in visited:
+                try:
+                    n._nohelper = True
+                except AttributeError:
+                    pass
             return [(v, path)]
         # expand outermost-first is not needed: replace all found calls (inner ones inside replaced
         # outer calls are handled by the recursion in the helper run)
@@ -520,7 +528,19 @@ class SymExec:
                 p.events.append(('create', tok.id, new, st, p.loops))
                 return tok
             return new
-        if not any(isinstance(x, ast.Call) and isinstance(x.func, ast.Name) and x.func.id in classes for x in ast.walk(v)):
+        visited = []
+        hit = False
+        for x in _walk_unflagged(v, '_nocls'):
+            visited.append(x)
+            if isinstance(x, ast.Call) and isinstance(x.func, ast.Name) and x.func.id in classes:
+                hit = True
+                break
+        if not hit:
+            for x in visited:
+                try:
+                    x._nocls = True
+                except AttributeError:
+                    pass
             return v
         return rec(v)
 
@@ -1189,6 +1209,17 @@ def module_constants(module):
            (isinstance(v, ast.Tuple) or (isinstance(v, ast.Constant) and isinstance(v.value, str)) or nm.startswith('_'))}
     _MODULE_CONSTS[key] = out
     return out
+
+
+def _walk_unflagged(root, flag):
+    """like ast.walk, without descending into subtrees that carry the attribute `flag`"""
+    todo = [root]
+    while todo:
+        n = todo.pop()
+        if getattr(n, flag, False):
+            continue
+        yield n
+        todo.extend(ast.iter_child_nodes(n))
 
 
 def _is_each(e):
